@@ -1,4 +1,5 @@
 """C19 C API: handle typestate and wiring"""
+import ecount
 import effi
 import elin
 import eunits
@@ -41,4 +42,7 @@ def run(ctx):
                 "non-null edge of the test.")
     nn = effi.check_null_guards(ctx, F)
     ctx.floor("E-FFI.null", "C-facing functions with a null test", nn, 12)
+    ctx.explain("E-COUNT.underflow: no unsigned local that starts at the literal 0 is only ever decremented (it would underflow at its "
+                "first update); detector checked against a built-in positive example on every run.")
+    ecount.run(ctx, F, ('oxidd_ffi_c',))
     ctx.not_decided = "call-sequence equivalence with the Rust API; final node counts"
